@@ -211,9 +211,10 @@ def make_column(col, n, seed):
             labels = ["L%05d" % i for i in range(ncat)]
         elif kind in ("cat_str", "cat_str_ord"):
             base = ["pear", "apple", "Zebra", "", "héllo", "日本", "10", "9", "b", "a"]
-            labels = [base[i % len(base)] + ("" if i < len(base) else str(i)) for i in range(ncat)]
+            sh = col.get("lshift", 0)
+            labels = [base[(i + sh) % len(base)] + ("" if i < len(base) else "_%d" % i) for i in range(ncat)]
         elif kind == "cat_int":
-            labels = [int(x) for x in (np.arange(ncat) * 7919 % 1000 - 500)]
+            labels = [int(x) for x in ((np.arange(ncat) + col.get("lshift", 0)) * 7919 % 1000 - 500)]
             labels = list(dict.fromkeys(labels))
         else:
             labels = [float(x) for x in (np.arange(ncat) * 0.75 - 1.5)][::-1]
